@@ -23,6 +23,12 @@ def run(tier, seed):
                        os.path.join(d, "RecMutexCond.tla"), os.path.join(d, "RecMutexCondKeepOwner.cfg"), timeout=300, expect="violation")
     if not r["violated"]:
         raise vlib.Broken("the keep-owner variant of RecMutexCond is not rejected: the invariants are vacuous")
+    vlib.tlc_check(chk, "WaitSuspend: a ULT going to sleep on a wait list (link, switch, callback: count, publish BLOCKED, release the lock) against waker, canceller and scheduler as coded, exhaustive incl. termination under fairness",
+                   os.path.join(d, "WaitSuspend.tla"), os.path.join(d, "WaitSuspendMC.cfg"), timeout=300)
+    for cfg, what in (("WaitSuspendTermInCb.cfg", "the callback acting on a pending cancellation: terminated while linked in the list"), ("WaitSuspendUnlockFirst.cfg", "the lock released before BLOCKED is published")):
+        r = vlib.tlc_check(chk, "WaitSuspend with %s (must be violated)" % what, os.path.join(d, "WaitSuspend.tla"), os.path.join(d, cfg), timeout=300, expect="violation")
+        if not r["violated"]:
+            raise vlib.Broken("the variant of WaitSuspend (%s) is not rejected: the invariants are vacuous" % what)
     vlib.history_check(chk, "d_sync", ["cond", "condtimed"], "H_Cond", quick, seed, what="cond history violates atomic release-and-wait / exact wake-ups / mutex held at return")
     chk.assumptions += ["serialized mode explores sequentially consistent interleavings of the hooked atomic operations",
                         "scenario scripts follow a discipline under which a correct implementation terminates; a run that ends in deadlock/stuck/budget is reported as a progress violation"]
